@@ -192,20 +192,30 @@ func (fr *Frame) pureScalar(callee *ssa.Function, cc *ssa.CallCommon, args []Ter
 
 // sortedness + permutation (with explicit bijection witnesses)
 func (c *Enc) permutation(at Term, oldInner, newInner Term, off, ln Term, es Sort) {
+	// same element set
+	c.assume(at, Eq(c.elemsOf(newInner, off, ln, es), c.elemsOf(oldInner, off, ln, es)))
+	c.n++
+	{
+		i := fmt.Sprintf("po!%d", c.n)
+		// outside the window nothing changes
+		c.assume(at, Term{fmt.Sprintf("(forall ((%s Int)) (! (=> (or (< %s %s) (>= %s (+ %s %s))) (= (select %s %s) (select %s %s))) :pattern ((select %s %s))))",
+			i, i, off.S, i, off.S, ln.S, newInner.S, i, oldInner.S, i, newInner.S, i), SBool})
+	}
+	if !c.option("sort-perm") {
+		return
+	}
 	c.n++
 	p := fmt.Sprintf("perm!%d", c.n)
 	q := fmt.Sprintf("perminv!%d", c.n)
 	c.declareFun(p, []Sort{SInt}, SInt)
 	c.declareFun(q, []Sort{SInt}, SInt)
 	i := fmt.Sprintf("pi!%d", c.n)
-	// new[off+i] = old[off+p(i)], old[off+i] = new[off+q(i)]
-	c.assume(at, Term{fmt.Sprintf("(forall ((%s Int)) (! (=> (and (<= 0 %s) (< %s %s)) (and (<= 0 (%s %s)) (< (%s %s) %s) (= (select %s (+ %s %s)) (select %s (+ %s (%s %s)))))) :pattern ((select %s (+ %s %s)))))",
-		i, i, i, ln.S, p, i, p, i, ln.S, newInner.S, off.S, i, oldInner.S, off.S, p, i, newInner.S, off.S, i), SBool})
-	c.assume(at, Term{fmt.Sprintf("(forall ((%s Int)) (! (=> (and (<= 0 %s) (< %s %s)) (and (<= 0 (%s %s)) (< (%s %s) %s) (= (select %s (+ %s %s)) (select %s (+ %s (%s %s)))))) :pattern ((select %s (+ %s %s)))))",
-		i, i, i, ln.S, q, i, q, i, ln.S, oldInner.S, off.S, i, newInner.S, off.S, q, i, oldInner.S, off.S, i), SBool})
-	// outside the window nothing changes
-	c.assume(at, Term{fmt.Sprintf("(forall ((%s Int)) (! (=> (or (< %s %s) (>= %s (+ %s %s))) (= (select %s %s) (select %s %s))) :pattern ((select %s %s))))",
-		i, i, off.S, i, off.S, ln.S, newInner.S, i, oldInner.S, i, newInner.S, i), SBool})
+	hi := Add(off, ln)
+	// absolute positions: new[p] = old[perm(p)], old[p] = new[perminv(p)], perm and perminv inverse on the window
+	c.assume(at, Term{fmt.Sprintf("(forall ((%s Int)) (! (=> (and (<= %s %s) (< %s %s)) (and (<= %s (%s %s)) (< (%s %s) %s) (= (%s (%s %s)) %s) (= (select %s %s) (select %s (%s %s))))) :pattern ((select %s %s))))",
+		i, off.S, i, i, hi.S, off.S, p, i, p, i, hi.S, q, p, i, i, newInner.S, i, oldInner.S, p, i, newInner.S, i), SBool})
+	c.assume(at, Term{fmt.Sprintf("(forall ((%s Int)) (! (=> (and (<= %s %s) (< %s %s)) (and (<= %s (%s %s)) (< (%s %s) %s) (= (%s (%s %s)) %s) (= (select %s %s) (select %s (%s %s))))) :pattern ((select %s %s))))",
+		i, off.S, i, i, hi.S, off.S, q, i, q, i, hi.S, p, q, i, i, oldInner.S, i, newInner.S, q, i, oldInner.S, i), SBool})
 }
 
 func applySortStrings(fr *Frame, v *ssa.Call, cc *ssa.CallCommon, a []Term, at Term, st *State) []Term {
@@ -219,8 +229,9 @@ func applySortStrings(fr *Frame, v *ssa.Call, cc *ssa.CallCommon, a []Term, at T
 	c.permutation(at, oldInner, newInner, slOff(s), slLen(s), es)
 	c.n++
 	i, j := fmt.Sprintf("si!%d", c.n), fmt.Sprintf("sj!%d", c.n)
-	c.assume(at, Term{fmt.Sprintf("(forall ((%s Int) (%s Int)) (! (=> (and (<= 0 %s) (< %s %s) (< %s %s)) (<= (select %s (+ %s %s)) (select %s (+ %s %s)))) :pattern ((select %s (+ %s %s)) (select %s (+ %s %s)))))",
-		i, j, i, i, j, j, slLen(s).S, newInner.S, slOff(s).S, i, newInner.S, slOff(s).S, j, newInner.S, slOff(s).S, i, newInner.S, slOff(s).S, j), SBool})
+	c.assume(at, mkQuant("forall", []Term{{i, SInt}, {j, SInt}},
+		fmt.Sprintf("(=> (and (<= 0 %s) (< %s %s) (< %s %s)) (<= (select %s (+ %s %s)) (select %s (+ %s %s))))", i, i, j, j, slLen(s).S, newInner.S, slOff(s).S, i, newInner.S, slOff(s).S, j),
+		[]string{fmt.Sprintf(":pattern ((select %s (+ %s %s)) (select %s (+ %s %s)))", newInner.S, slOff(s).S, i, newInner.S, slOff(s).S, j)}))
 	// the nil slice has no backing array to change
 	c.set(st, heap, Ite(Eq(slArr(s), IntLit(0)), h, Store(h, slArr(s), newInner)))
 	return nil
@@ -288,18 +299,16 @@ func applySortSlice(fr *Frame, v *ssa.Call, cc *ssa.CallCommon, a []Term, at Ter
 	// sort.Slice requires the captured slice variable to be the sorted slice: less reads the post state
 	if lt, ok := evalLess(st, j, i); ok {
 		pat := fmt.Sprintf(":pattern ((select %s (+ %s %s)) (select %s (+ %s %s)))", newInner.S, slOff(s).S, i.S, newInner.S, slOff(s).S, j.S)
-		c.assume(at, Term{fmt.Sprintf("(forall ((%s Int) (%s Int)) (! (=> (and (<= 0 %s) (< %s %s) (< %s %s)) (not %s)) %s))",
-			i.S, j.S, i.S, i.S, j.S, j.S, slLen(s).S, lt.S, pat), SBool})
+		c.assume(at, mkQuant("forall", []Term{i, j}, fmt.Sprintf("(=> (and (<= 0 %s) (< %s %s) (< %s %s)) (not %s))", i.S, i.S, j.S, j.S, slLen(s).S, lt.S), []string{pat}))
 	}
 	// determinism side condition (strict weak order that is total on distinct positions) is a separate,
 	// named obligation so that properties can opt in: <fn>/sort#k[total-order]
 	c.sortSeq++
 	if ltij, ok := evalLess(st, i, j); ok {
 		ltji, _ := evalLess(st, j, i)
-		goal := Term{fmt.Sprintf("(forall ((%s Int) (%s Int)) (=> (and (<= 0 %s) (< %s %s) (< %s %s)) (or %s %s)))",
-			i.S, j.S, i.S, i.S, j.S, j.S, slLen(s).S, ltij.S, ltji.S), SBool}
+		goal := mkQuant("forall", []Term{i, j}, fmt.Sprintf("(=> (and (<= 0 %s) (< %s %s) (< %s %s)) (or %s %s))", i.S, i.S, j.S, j.S, slLen(s).S, ltij.S, ltji.S), nil)
 		c.sortTotal = append(c.sortTotal, sortObl{name: fmt.Sprintf("%s/sort#%d[total-order]", funcKey(c.top), c.sortSeq), guard: at, goal: goal,
-			nAsserts: len(c.asserts), cmp: funcKey(cmp)})
+			nAsserts: len(c.asserts), cmp: funcKey(cmp), blk: c.curBlk})
 	}
 	return nil
 }
@@ -310,6 +319,7 @@ type sortObl struct {
 	goal     Term
 	nAsserts int
 	cmp      string
+	blk      *ssa.BasicBlock
 }
 
 var _ = strings.TrimSpace
